@@ -34,35 +34,52 @@ THEOREMS = [P + n for n in (
     'same_signal_reused', 'same_signal_zero_noise_identical', 'fresh_signal',
     'noise_additive_sqrt', 'real_sqrt_contracts', 'design_once_per_partition',
     'design_conditions', 'design_matrix_same_data', 'make_signal_exact_coded', 'eig_clamp_threshold',
-    'real_eig_sqrt', 'euclid_is_C01_estimator', 'simulated_rdm_eq_model_C01')]
+    'real_eig_sqrt', 'euclid_is_C01_estimator', 'simulated_rdm_eq_model_C01',
+    'general_design_reproduces', 'general_design_reproduces_D', 'factor_contract_reproduces',
+    'coded_signal_reproduces', 'eig_clamp_nonneg', 'eig_clamp_error', 'chol_eigh_gram_real',
+    'coded_signal_reproduces_real', 'general_design_dataset', 'row_center_sums_zero', 'draw_shapes')]
 RULE = ('cases from one PRNG: model RDM = squared distances of an integer point set (3-7 conditions, '
-        'incl. collinear / duplicated / low-rank sets; fixed or weighted model), channels n_cond+{0,1,2,5} '
-        '(a few below n_cond), 1-4 partitions, 1-3 simulations, dyadic signal strengths, noise 0 or >0, '
+        'incl. collinear / duplicated / low-rank sets; fixed, weighted, select, interpolate models), channels '
+        'n_cond+{0,1,2,5} (a few below n_cond; 30 when every argument is left at its default), 1-4 partitions, '
+        '1-3 simulations, dyadic signal strengths, noise 0 or >0, scalar arguments as float / int / numpy scalar, '
         'condition vector from make_design / arbitrary labels with unequal repetitions / explicit indicator '
-        'matrix / general design matrix, optional noise channel / trial and signal channel covariance, exact '
-        'or random signal, same or fresh signal, numpy seed; non-trivial = at least 3 conditions; distinct = '
-        'distinct (points, channels, design, options, seed)')
+        'matrix / general design matrix (regressor heights != 1, all-zero rest rows, compound rows, random; '
+        'C / Fortran / strided / int / bool / float32 layouts), optional noise channel / trial and signal channel '
+        'covariance, exact or random signal, same or fresh signal (all four combinations with several '
+        'simulations forced), numpy seed; the malformed stream (3-D cond_vec, wrong covariance shapes); '
+        'non-trivial = at least 3 conditions; distinct = distinct (points, channels, design, options, seed)')
 BRANCHES = ['design:only', 'cond:design', 'cond:labels', 'cond:matrix', 'cond:general', 'signal:exact', 'signal:random',
             'same', 'fresh', 'noise:zero', 'noise:pos', 'noisecov:channel', 'noisecov:trial',
             'signalcov', 'nch:eq', 'nch:gt', 'nch:lt', 'model:generic', 'model:degenerate',
             'model:weighted', 'rdm:compared', 'own:met',
             'mk:fixed_vec', 'mk:fixed_mat', 'mk:fixed_rdms', 'mk:weighted', 'mk:weighted_none', 'mk:select',
             'mk:interp', 'reject:ndim3', 'reject:scc_shape', 'reject:ncc_shape', 'reject:nct_shape',
-            'signal:coded', 'rdm:list']
+            'signal:coded', 'rdm:list',
+            'zmat:heights', 'zmat:rest', 'zmat:compound', 'general:claimed', 'general:claimed:heights',
+            'general:claimed:rest', 'general:claimed:compound', 'zlayout:F', 'zlayout:int', 'zlayout:bool',
+            'zlayout:f32', 'zlayout:strided', 'args:defaults', 'args:int', 'args:np',
+            'combo:exact+same', 'combo:exact+fresh', 'combo:random+same', 'combo:random+fresh',
+            'signalcov:nsim>1', 'noisecov:trial:nsim>1', 'noisecov:trial:zero-noise',
+            'own:met:eq', 'own:met:degenerate', 'factor:residual', 'factor:residual:eq',
+            'mk:interp_none', 'stack:vec', 'stack:rdms', 'stack:mat']
 ASSUMPTIONS = [
     'the exact-signal contract S S^T = n_channel*G of make_signal is checked numerically on every real '
-    'call (rel. 1e-9); the orthonormality of np.linalg.qr and the decomposition of np.linalg.eigh are contracts, checked on every recorded result (1e-9)',
+    'call (rel. 1e-9); the orthonormality of np.linalg.qr, the decomposition of np.linalg.eigh and the factor '
+    'contract F F^T = G (F as coded from the recorded eigh result and F recovered from the returned signal) are '
+    'checked on every recorded result (1e-9)',
     'ss.norm.ppf is an arbitrary map from draws to reals for the theorems; the harness applies the '
     'same scipy function to the recorded uniform draws',
-    'Float evaluation of both sides agrees within rtol 1e-9 (data, RDM of identical data) and within '
-    '1e-5 relative to signal*max(D) for the LDL-based exact signal of the code',
+    'Float evaluation of both sides agrees within rtol 1e-9 (data, signals, RDM of identical data, exact-signal '
+    'RDM vs signal*D, general-design second moment vs signal*Z G Z^T)',
 ]
 TRUSTED_EXTRA = [
-    'np.linalg.eigh(G): G = V diag(w) V^T, V orthogonal; np.linalg.qr: orthonormal columns — hypotheses of '
-    'make_signal_exact_coded, checked (1e-9) on every result recorded inside the real make_signal',
+    'np.linalg.eigh(G): G = V diag(w) V^T; np.linalg.qr: orthonormal columns — hypotheses of '
+    'make_signal_exact_coded / coded_signal_reproduces(_real), checked (1e-9) on every result recorded inside the '
+    'real make_signal; the model has own instances of both contracts (pivoted Cholesky, Gram-Schmidt with '
+    'completion) whose residuals are required to be <= 1e-9 in every claim case',
     'np.linalg.cholesky of the covariance arguments (passed to the model as recorded factors)',
-    'harness/leaves/C18.py derivation of scalar entry formulas from array expressions (np.kron, '
-    'np.identity, @) before py2lean',
+    'harness/leaves/C18.py derivation of scalar entry formulas from array expressions (np.kron, np.identity, '
+    '@, masked assignments, dict / keyword wiring, size= tuples) before py2lean',
 ]
 
 _OWN = {}
@@ -117,6 +134,57 @@ def _labels(rng, n_cond):
     return lab
 
 
+ZKINDS = ('heights', 'rest', 'compound', 'mixed', 'random')
+
+
+def _zmat(rng, n, kind):
+    """a general (encoding-style) design matrix, n_obs x n: an indicator design with regressor
+    heights other than 1, all-zero rest rows, compound rows (several non-zero entries), or random"""
+    if kind == 'random':
+        n_obs = rng.randint(n, n + 4)
+        return [[rng.choice([0, 0, 1, 1, 2, -1, 0.5]) for _ in range(n)] for _ in range(n_obs)]
+    cols = []
+    for j in range(n):
+        cols += [j] * rng.randint(1, 2)
+    rng.shuffle(cols)
+    rows = [[1.0 if c == j else 0.0 for j in range(n)] for c in cols]
+    if kind in ('heights', 'mixed'):
+        per_col = rng.random() < 0.5
+        hc = [rng.choice([2.0, 0.5, 3.0, -1.0, 1.5, 1.0]) for _ in range(n)]
+        for r, c in zip(rows, cols):
+            h = hc[c] if per_col else rng.choice([2.0, 0.5, 3.0, -1.0, 1.5, 1.0])
+            r[c] = h
+        if all(r[c] == 1.0 for r, c in zip(rows, cols)):
+            rows[0][cols[0]] = 2.0
+    if kind in ('rest', 'mixed'):
+        for _ in range(rng.randint(1, 3)):
+            rows.insert(rng.choice([0, 0, len(rows)] + list(range(len(rows) + 1))), [0.0] * n)
+    if kind in ('compound', 'mixed'):
+        for _ in range(rng.randint(1, 3)):
+            a, b = rng.sample(range(n), 2)
+            wa, wb = rng.choice([(1.0, 1.0), (1.0, 1.0), (0.5, 1.0), (1.0, 2.0), (1.0, -1.0)])
+            r = [0.0] * n
+            r[a], r[b] = wa, wb
+            if n > 2 and rng.random() < 0.3:
+                r[rng.choice([j for j in range(n) if j not in (a, b)])] = 1.0
+            rows.insert(rng.randrange(len(rows) + 1), r)
+    return rows
+
+
+def _zfeatures(zmat):
+    """which of the non-indicator features a design matrix has"""
+    f = set()
+    for r in zmat:
+        nz = [x for x in r if x != 0]
+        if not nz:
+            f.add('rest')
+        elif len(nz) > 1:
+            f.add('compound')
+        elif nz[0] != 1:
+            f.add('heights')
+    return f
+
+
 def _one(rng, force=None):
     force = force or {}
     mkind = force.get('mkind', rng.choice(['generic'] * 5 + ['collinear', 'duplicate', 'any']))
@@ -124,10 +192,12 @@ def _one(rng, force=None):
                   else rng.randint(3, 7))
     case = {'pts': _points(rng, n, mkind), 'mkind': mkind}
     mk = force.get('mk', rng.choice(['fixed_vec'] * 5 + ['fixed_mat', 'fixed_rdms', 'weighted', 'weighted',
-                                           'weighted_none', 'select', 'interp']))
+                                           'weighted_none', 'select', 'interp', 'interp_none']))
     case['mk'] = mk
-    if mk in ('weighted', 'weighted_none', 'select', 'interp'):
+    if mk in ('weighted', 'weighted_none', 'select', 'interp', 'interp_none'):
         case['pts2'] = _points(rng, n, 'any')
+        # how the RDM stack is handed to the model constructor: vectors, an RDMs object, square matrices
+        case['stackform'] = rng.choice(['vec', 'vec', 'rdms', 'mat'])
         if mk == 'weighted':
             case['theta'] = [rng.choice([0.5, 1.0, 2.0]), rng.choice([0.25, 1.0, 1.5])]
         elif mk == 'interp':
@@ -136,7 +206,9 @@ def _one(rng, force=None):
         elif mk == 'select':
             case['theta'] = rng.choice([0, 1])
     r = rng.random()
-    if r < 0.08:
+    if force.get('_nch_eq'):
+        case['n_ch'] = n
+    elif r < 0.08 and not force.get('_scc'):
         case['n_ch'] = max(1, n - rng.randint(1, 2))
     else:
         case['n_ch'] = n + rng.choice([0, 1, 1, 2, 5])
@@ -149,25 +221,37 @@ def _one(rng, force=None):
     if mode in ('labels', 'matrix'):
         case['labels'] = _labels(rng, n)
     elif mode == 'general':
-        n_obs = rng.randint(n, n + 4)
-        case['zmat'] = [[rng.choice([0, 0, 1, 1, 2, -1, 0.5]) for _ in range(n)] for _ in range(n_obs)]
+        case['zkind'] = force.get('zkind', rng.choice(ZKINDS))
+        case['zmat'] = _zmat(rng, n, case['zkind'])
+    if mode == 'matrix' or mode == 'general':
+        # memory layout / dtype of the explicit design matrix (glue around `Zcond = cond_vec`)
+        case['zlayout'] = rng.choice(['C', 'C', 'F', 'int', 'bool', 'f32', 'strided'])
     case['exact'] = rng.random() < 0.75
     case['same'] = rng.random() < 0.4
     case['ncc'] = _spd(rng, case['n_ch']) if rng.random() < 0.2 else None
     case['nct'] = None
     # (a signal channel covariance with fewer channels than conditions makes make_signal raise: the
     #  property excludes both, see notes/C18.md, so that combination is not generated)
-    case['scc'] = _spd(rng, case['n_ch']) if rng.random() < 0.08 and case['n_ch'] >= n else None
+    case['scc'] = _spd(rng, case['n_ch']) if (rng.random() < 0.08 or force.get('_scc')) \
+        and case['n_ch'] >= n and not force.get('_nct') else None
     n_obs = _n_obs(case)
-    if rng.random() < 0.15 and n_obs >= n and case['scc'] is None:
+    if (rng.random() < 0.15 or force.get('_nct')) and n_obs >= n and case['scc'] is None \
+            and not force.get('_nch_eq'):
         # the code only accepts a trial covariance when n_obs == n_channel (see notes/C18.md)
         case['n_ch'] = n_obs
         case['ncc'] = _spd(rng, n_obs) if case['ncc'] is not None else None
         case['nct'] = _spd(rng, n_obs)
-        if case['noise'] == 0.0:
+        if case['noise'] == 0.0 and rng.random() < 0.6:
             case['noise'] = 1.0
     case['seed'] = rng.randint(0, 2 ** 31 - 1)
-    case.update({k: v for k, v in force.items() if k not in ('mkind', 'n_cond')})
+    # how the scalar arguments are passed: python floats, python ints (where integral), numpy scalars
+    case['argform'] = rng.choice(['float', 'float', 'int', 'np'])
+    case.update({k: v for k, v in force.items() if k not in ('mkind', 'n_cond', 'zkind')
+                 and not k.startswith('_')})
+    if case.get('defaults'):
+        # every optional argument left at its default (n_channel=30, n_sim=1, signal=1, noise=1, ...)
+        case.update({'n_ch': 30, 'n_sim': 1, 'signal': 1.0, 'noise': 1.0, 'exact': False, 'same': False,
+                     'ncc': None, 'nct': None, 'scc': None})
     return case
 
 
@@ -204,12 +288,35 @@ def generate(rng, tier):
             yield {'kind': 'design_only', 'n_cond': nc, 'n_part': npart}
     # a fixed sub-stream guarantees every branch in the quick tier
     forced = [{'mk': m, 'exact': True, 'noise': 0.0, 'scc': None, 'cond_mode': 'labels'}
-              for m in ('fixed_mat', 'fixed_rdms', 'weighted', 'weighted_none', 'select', 'interp')] + [
+              for m in ('fixed_mat', 'fixed_rdms', 'weighted', 'weighted_none', 'select', 'interp', 'interp_none')] + [
+        {'mk': 'weighted', 'stackform': 'rdms'}, {'mk': 'select', 'stackform': 'mat'},
+        {'mk': 'interp', 'stackform': 'rdms'},
         {'cond_mode': 'design', 'exact': True, 'noise': 0.0, 'same': False, 'scc': None, 'mkind': 'generic'},
         {'cond_mode': 'labels', 'exact': True, 'noise': 0.0, 'same': True, 'scc': None, 'mkind': 'generic'},
         {'cond_mode': 'matrix', 'exact': True, 'noise': 0.0, 'scc': None, 'mkind': 'collinear'},
         {'cond_mode': 'general', 'exact': False, 'noise': 1.0},
         {'cond_mode': 'design', 'exact': True, 'noise': 0.0, 'scc': None, 'mkind': 'duplicate', 'n_cond': 5},
+    ] + [
+        # general design matrices inside the property's claim (exact signal, zero noise)
+        {'cond_mode': 'general', 'zkind': zk, 'exact': True, 'noise': 0.0, 'scc': None, 'ncc': None,
+         'nct': None, 'zlayout': lay}
+        for zk, lay in (('heights', 'C'), ('rest', 'F'), ('compound', 'strided'), ('mixed', 'f32'),
+                        ('heights', 'int'), ('random', 'C'))
+    ] + [
+        {'cond_mode': 'matrix', 'zlayout': 'bool'}, {'cond_mode': 'matrix', 'zlayout': 'int'},
+        {'cond_mode': 'design', 'defaults': True, 'mk': 'fixed_vec'},
+        {'cond_mode': 'labels', 'defaults': True},
+        {'argform': 'int', 'signal': 4.0, 'noise': 1.0}, {'argform': 'np'},
+        # option combinations with several simulations
+        {'n_sim': 3, 'exact': True, 'same': True, 'noise': 0.0, 'scc': None},
+        {'n_sim': 3, 'exact': True, 'same': False, 'noise': 0.0, 'scc': None},
+        {'n_sim': 2, 'exact': False, 'same': True}, {'n_sim': 2, 'exact': False, 'same': False},
+        {'n_sim': 2, '_scc': True, 'same': True}, {'n_sim': 2, '_scc': True, 'same': False},
+        {'n_sim': 2, '_nct': True, 'noise': 1.0}, {'n_sim': 1, '_nct': True, 'noise': 0.0, 'exact': True},
+        # as many channels as conditions, degenerate model
+        {'_nch_eq': True, 'exact': True, 'noise': 0.0, 'scc': None, 'cond_mode': 'labels'},
+        {'_nch_eq': True, 'exact': True, 'noise': 0.0, 'scc': None, 'mkind': 'duplicate', 'n_cond': 6,
+         'cond_mode': 'design'},
     ]
     for f in forced:
         yield _one(rng, f)
@@ -220,8 +327,16 @@ def generate(rng, tier):
 def search(rng, tier):
     """failing-input search: the property's own claim first (exact signal, zero noise, no signal
     covariance, channels >= conditions), all model kinds and designs"""
+    k = 0
     while True:
-        c = _one(rng, {'exact': True, 'noise': 0.0, 'scc': None} if rng.random() < 0.7 else None)
+        f = {'exact': True, 'noise': 0.0, 'scc': None} if rng.random() < 0.7 else {}
+        k += 1
+        if k % 4 == 0:
+            # general design matrices (heights, rest rows, compound rows), round-robin over the kinds
+            f = dict(f, cond_mode='general', zkind=ZKINDS[(k // 4) % len(ZKINDS)])
+        elif k % 9 == 0:
+            f = dict(f, n_sim=rng.choice([2, 3]), same=rng.random() < 0.6, signal=rng.choice([0.25, 2.5, 4.0]))
+        c = _one(rng, f)
         if c['n_ch'] < len(c['pts']) and rng.random() < 0.8:
             c['n_ch'] = len(c['pts']) + rng.choice([0, 1, 2])
             c['ncc'] = c['nct'] = None
@@ -249,6 +364,8 @@ def _expected_dvec(case):
     d2 = _dvec(case['pts2'])
     if mk == 'weighted_none':
         return [a + b for a, b in zip(d1, d2)]
+    if mk == 'interp_none':
+        return [0.5 * a + 0.5 * b for a, b in zip(d1, d2)]
     if mk == 'select':
         return [d1, d2][case['theta']]
     return [case['theta'][0] * a + case['theta'][1] * b for a, b in zip(d1, d2)]
@@ -266,13 +383,18 @@ def _setup(case):
     else:
         d2 = np.array(_dvec(case['pts2']))
         stack = np.array([d1, d2])
+        if case.get('stackform') == 'rdms':
+            stack = RDMs(stack)
+        elif case.get('stackform') == 'mat':
+            stack = np.array([squareform(d1), squareform(d2)])
         if mk in ('weighted', 'weighted_none'):
             model = ModelWeighted('weighted-model', stack)
             theta = None if mk == 'weighted_none' else np.array(case['theta'], dtype=float)
         elif mk == 'select':
             model, theta = ModelSelect('select-model', stack), int(case['theta'])
         else:
-            model, theta = ModelInterpolate('interp-model', stack), np.array(case['theta'], dtype=float)
+            model = ModelInterpolate('interp-model', stack)
+            theta = None if mk == 'interp_none' else np.array(case['theta'], dtype=float)
     dvec = np.array(_expected_dvec(case), dtype=float)
     n = len(case['pts'])
     mode = case['cond_mode']
@@ -283,15 +405,33 @@ def _setup(case):
     elif mode == 'labels':
         cond_vec, part_vec = np.array(case['labels']), None
     elif mode == 'matrix':
-        cond_vec, part_vec = rsatoolbox.util.matrix.indicator(np.array(case['labels'])), None
+        cond_vec, part_vec = _layout(rsatoolbox.util.matrix.indicator(np.array(case['labels'])), case), None
     else:
-        cond_vec, part_vec = np.array(case['zmat'], dtype=float), None
+        cond_vec, part_vec = _layout(np.array(case['zmat'], dtype=float), case), None
     return model, theta, dvec, cond_vec, part_vec
+
+
+def _layout(z, case):
+    """the same design matrix in another memory layout / dtype (only where the values survive)"""
+    lay = case.get('zlayout', 'C')
+    if lay == 'F':
+        return np.asfortranarray(z)
+    if lay == 'int' and np.all(z == np.round(z)):
+        return z.astype(np.int64)
+    if lay == 'bool' and np.all((z == 0) | (z == 1)):
+        return z.astype(bool)
+    if lay == 'f32':
+        return z.astype(np.float32)         # entries are small dyadic numbers: exact in float32
+    if lay == 'strided':
+        big = np.zeros((z.shape[0] * 2, z.shape[1] * 2))
+        big[::2, ::2] = z
+        return big[::2, ::2]
+    return z
 
 
 def _model_name(case):
     return {'weighted': 'weighted-model', 'weighted_none': 'weighted-model', 'select': 'select-model',
-            'interp': 'interp-model'}.get(_mk(case), 'fixed-model')
+            'interp': 'interp-model', 'interp_none': 'interp-model'}.get(_mk(case), 'fixed-model')
 
 
 def _theta_list(theta):
@@ -372,12 +512,23 @@ class _Tap:
 def _call(case, noise=None, signal=None, tap=None):
     model, theta, dvec, cond_vec, _ = _setup(case)
     np.random.seed(case['seed'])
+
+    def num(x):
+        form = case.get('argform', 'float')
+        if form == 'int' and float(x) == int(x):
+            return int(x)
+        if form == 'np':
+            return np.float64(x)
+        return x
     kw = dict(n_channel=case['n_ch'], n_sim=case['n_sim'],
-              signal=case['signal'] if signal is None else signal,
-              noise=case['noise'] if noise is None else noise,
+              signal=num(case['signal'] if signal is None else signal),
+              noise=num(case['noise'] if noise is None else noise),
               signal_cov_channel=_cov(case['scc']), noise_cov_channel=_cov(case['ncc']),
               noise_cov_trial=_cov(case['nct']), use_exact_signal=case['exact'],
               use_same_signal=case['same'])
+    if case.get('defaults'):
+        # only what the oracle varies is passed; everything else is the signature's default
+        kw = {k: v for k, v in (('signal', signal), ('noise', noise)) if v is not None}
     return sim.make_dataset(model, theta, cond_vec, **kw), (model, theta, dvec, cond_vec)
 
 
@@ -388,15 +539,32 @@ def _canon_desc(x):
         return [_canon_desc(v) for v in x.tolist()] if x.ndim else _canon_desc(x.item())
     if isinstance(x, (list, tuple)):
         return [_canon_desc(v) for v in x]
-    if isinstance(x, (np.floating, float, np.integer, int)) and not isinstance(x, bool):
+    if isinstance(x, (np.floating, float, np.integer, int, bool, np.bool_)):
         return float(x)
     return str(x)
 
 
-def _claims_rdm(case):
-    """the property's consistency claim applies"""
+def _claims_any(case):
+    """exact signal, zero noise, no signal covariance, channels >= conditions"""
     return (not case.get('bad') and case['exact'] and case['noise'] == 0.0 and case['scc'] is None
-            and case['n_ch'] >= len(case['pts']) and case['cond_mode'] != 'general')
+            and case['n_ch'] >= len(case['pts']))
+
+
+def _claims_rdm(case):
+    """the property's consistency claim applies (RDM by condition = signal * model RDM)"""
+    return _claims_any(case) and case['cond_mode'] != 'general'
+
+
+def _claims_general(case):
+    """the same claim for a general design matrix: the data rows are sqrt(signal) * Z U exactly, so the
+    second moment of the data is n_channel * signal * Z G Z^T and the distances between rows follow"""
+    return _claims_any(case) and case['cond_mode'] == 'general'
+
+
+def _row_ds(ds):
+    """the same measurements with one condition per observation"""
+    return rsatoolbox.data.Dataset(ds.measurements, descriptors=ds.descriptors,
+                                   obs_descriptors={'row': np.arange(ds.n_obs)})
 
 
 def _design_only(case):
@@ -456,6 +624,29 @@ def run_impl(case):
             fac = f'negative eigenvalue {float(np.min(w)):.3e} of G for an embeddable model'
             break
     res['factor_contract'] = fac
+    # the factor of G at the level "any F with F F^T = G and shape (n_cond, n_cond)" (hypothesis hF of
+    # factor_contract_reproduces): F as coded from the recorded eigh result, and — for exact calls that
+    # are neither truncated nor given a channel covariance — F recovered from the *returned* signal
+    # (out = F W, W W^T = w I  =>  F = out W^T / w); residual relative to max|G|
+    fres, fwhy = None, None
+    if fac is None:
+        for s in tap.signals:
+            g, n_c = s['G'], s['G'].shape[0]
+            sc = max(float(np.max(np.abs(g))), 1e-300)
+            wcl = np.where(s['eigval'] < 1e-15, 0.0, s['eigval'])
+            f_rec = s['eigvec'] * np.sqrt(wcl)
+            r = float(np.max(np.abs(f_rec @ f_rec.T - g))) / sc
+            if f_rec.shape != (n_c, n_c):
+                fwhy = f'factor shape {f_rec.shape}'
+            if s['exact'] and s['chol'] is None and s['n_channel'] >= n_c:
+                w = s['n_channel']
+                wmat = s['q'].T * np.sqrt(w)
+                f_out = s['out'] @ wmat.T / w
+                r = max(r, float(np.max(np.abs(f_out @ f_out.T - g))) / sc,
+                        float(np.max(np.abs(f_out - f_rec))) / math.sqrt(sc))
+            fres = r if fres is None else max(fres, r)
+    res['factor_resid'] = fres
+    res['factor_why'] = fwhy
     labels = _labels_of(case)
     out = []
     for ds in dss:
@@ -465,7 +656,13 @@ def run_impl(case):
              'noise': _canon_desc(ds.descriptors.get('noise')),
              'model': _canon_desc(ds.descriptors.get('model')),
              'theta': _theta_list(ds.descriptors.get('theta')),
-             'n_obs': int(ds.n_obs), 'n_ch': int(ds.n_channel), 'rdm': None}
+             'n_obs': int(ds.n_obs), 'n_ch': int(ds.n_channel), 'rdm': None, 'rdm_rows': None}
+        if case['cond_mode'] == 'general':
+            try:
+                d['rdm_rows'] = rsatoolbox.rdm.calc_rdm(
+                    _row_ds(ds), method='euclidean', descriptor='row').get_vectors()[0].tolist()
+            except Exception as exc:  # noqa: BLE001  (any exception of calc_rdm is a finding, not an infrastructure error)
+                d['rdm_rows'] = {'exc': type(exc).__name__}
         if labels is not None:
             if case['cond_mode'] == 'matrix':
                 ds2 = rsatoolbox.data.Dataset(ds.measurements, descriptors=ds.descriptors,
@@ -476,7 +673,7 @@ def run_impl(case):
                 r = rsatoolbox.rdm.calc_rdm(ds2, method='euclidean', descriptor='cond_vec')
                 d['rdm'] = r.get_vectors()[0].tolist()
                 d['rdm_labels'] = _canon_desc(r.pattern_descriptors.get('cond_vec'))
-            except (ValueError, TypeError, AssertionError, AttributeError) as exc:
+            except Exception as exc:  # noqa: BLE001  (any exception of calc_rdm is a finding, not an infrastructure error)
                 d['rdm'] = {'exc': type(exc).__name__}
         out.append(d)
     res['datasets'] = out
@@ -489,7 +686,7 @@ def run_impl(case):
         try:
             rl = rsatoolbox.rdm.calc_rdm(lst, method='euclidean', descriptor='cond_vec')
             res['rdm_list'] = rl.get_vectors().tolist()
-        except (ValueError, TypeError, AssertionError, AttributeError) as exc:
+        except Exception as exc:  # noqa: BLE001  (any exception of calc_rdm is a finding, not an infrastructure error)
             res['rdm_list'] = {'exc': type(exc).__name__}
     return res
 
@@ -541,6 +738,10 @@ def model_requests(case):
         named.append(('design', {'op': 'c18.design', 'n_cond': n, 'n_part': case['n_part']}))
     if case['cond_mode'] == 'matrix':
         named.append(('dataset_vec', dict(dataset, cond={'vec': labels})))
+    if case['cond_mode'] == 'general':
+        named.append(('rowspec', {'op': 'c18.rowspec', 'n_cond': n, 'rdm': deep(fbits, dvec),
+                                  'design': deep(fbits, np.asarray(cond_vec, dtype=float)),
+                                  'signal': fbits(case['signal'])}))
     if _claims_rdm(case):
         w = max(n, case['n_ch'])
         z = ss.norm.ppf(rec['signal_u'][0]) if rec['signal_u'] and rec['signal_u'][0].shape == (n, w) \
@@ -581,6 +782,7 @@ def model_result(case, answers):
            'coded_signals': {int(k[6:]): _unf(v['signal']) for k, v in ans.items() if k.startswith('signal')},
            'G': _unf(ans['gram']), 'plan': ''.join('S' if k else 'N' for k, _ in ds['plan']),
            'n_signal_calls': ds['n_signal_calls'], 'n_cols': ds['n_cols'], 'gen_width': ds['gen_width'],
+           'noise_shape': ds['noise_shape'], 'signal_shape': ds['signal_shape'],
            'design': None, 'own': None}
     out = []
     for k, d in enumerate(ds['datasets']):
@@ -592,7 +794,8 @@ def model_result(case, answers):
         o = {'data': _unf(d['data']), 'rdm': None if d['rdm'] is None else _unf(d['rdm']),
              'cond_vec': cv, 'signal': unfbits(d['signal']), 'noise': unfbits(d['noise']),
              'model': d['model'], 'theta': None if d['theta'] is None else _unf(d['theta']),
-             'n_obs': d['n_obs'], 'n_ch': d['n_ch']}
+             'n_obs': d['n_obs'], 'n_ch': d['n_ch'],
+             'rdm_rows': None if d.get('rdm_rows') is None else _unf(d['rdm_rows'])}
         if 'dataset_vec' in ans:
             # explicit indicator matrix: same data as with the label vector (design_matrix_same_data)
             dv = ans['dataset_vec']['datasets'][k]
@@ -604,6 +807,8 @@ def model_result(case, answers):
     if 'design' in ans:
         res['design'] = {'cond': [float(v) for v in ans['design']['cond']],
                          'part': [float(v) for v in ans['design']['part']]}
+    if 'rowspec' in ans:
+        res['rowspec'] = {'spec': _unf(ans['rowspec']['spec']), 'spec_d': _unf(ans['rowspec']['spec_d'])}
     if 'own' in ans:
         o = ans['own']
         res['own'] = {'resid_c': unfbits(o['resid_c']), 'resid_w': unfbits(o['resid_w']),
@@ -655,11 +860,11 @@ def compare(case, impl, model):
         return f"make_signal called {impl['n_signal_calls']} times, model {model['n_signal_calls']}"
     n_obs = _n_obs(case)
     for sh in impl['signal_shapes']:
-        if sh != [n, model['gen_width']]:
-            return f"signal draw shape {sh} != model {[n, model['gen_width']]}"
+        if sh != [n, model['gen_width']] or sh != model['signal_shape']:
+            return f"signal draw shape {sh} != model {model['signal_shape']}"
     for sh in impl['noise_shapes']:
-        if sh != [n_obs, case['n_ch']]:
-            return f"noise draw shape {sh} != {[n_obs, case['n_ch']]}"
+        if sh != [n_obs, case['n_ch']] or sh != model['noise_shape']:
+            return f"noise draw shape {sh} != model {model['noise_shape']}"
     if len(impl['datasets']) != len(model['datasets']):
         return f"{len(impl['datasets'])} datasets, model {len(model['datasets'])}"
     rscale = max([abs(w) for w in _expected_rdm(case)] + [1e-12])
@@ -681,9 +886,22 @@ def compare(case, impl, model):
                            f'dataset[{k}].rdm(calc_rdm vs model on the same data)')
             if d:
                 return d
+        # general design matrix: one pattern per observation
+        if isinstance(a.get('rdm_rows'), dict):
+            return f"dataset[{k}]: calc_rdm(euclidean, by row) raised {a['rdm_rows']['exc']} on the simulated dataset"
+        if a.get('rdm_rows') is not None and b.get('rdm_rows') is not None:
+            d = first_diff(a['rdm_rows'], b['rdm_rows'], 1e-9, 1e-9 * max(rscale, dscale * dscale),
+                           f'dataset[{k}].rdm_rows(calc_rdm vs model on the same data)')
+            if d:
+                return d
     # make_signal as coded: model signal from the recorded draw and qr / eigh results
     if impl['factor_contract']:
         return f"make_signal factor step: {impl['factor_contract']}"
+    if impl.get('factor_why'):
+        return f"make_signal factor step: {impl['factor_why']}"
+    if impl.get('factor_resid') is None or not impl['factor_resid'] <= 1e-9:
+        return (f"factor of G inside make_signal: F F^T = G (F of shape n_cond x n_cond) violated on the real "
+                f"call, relative residual {impl.get('factor_resid')}")
     if len(model['coded_signals']) != len(impl['signals']):
         return f"{len(impl['signals'])} make_signal calls, {len(model['coded_signals'])} modelled"
     for i_s, sig in enumerate(impl['signals']):
@@ -706,15 +924,45 @@ def compare(case, impl, model):
             return (f"exact-signal contract S S^T = n_channel*G violated on the real call: "
                     f"relative residual {impl['contract']}")
         want = _expected_rdm(case)
-        if _own_met(case, model):
-            d = first_diff(model['own']['rdm'], want, 0, 1e-7 * rscale, 'model own exact signal: rdm vs signal*D')
-            if d:
-                return d
+        if not _own_met(case, model):
+            return (f"the model's own factor instances (pivoted Cholesky, Gram-Schmidt with completion) miss "
+                    f"their contracts: residuals {model['own']['resid_c']:.2e} {model['own']['resid_w']:.2e}")
+        d = first_diff(model['own']['rdm'], want, 0, 1e-9 * rscale, 'model own exact signal: rdm vs signal*D')
+        if d:
+            return d
         for k, a in enumerate(impl['datasets']):
             d = first_diff(a['rdm'], want, 0, TOL_EXACT * rscale, f'dataset[{k}].rdm vs signal*D')
             if d:
                 return d
+    if case['cond_mode'] == 'general' and 'rowspec' in model:
+        spec, spec_d = model['rowspec']['spec'], model['rowspec']['spec_d']
+        z = case['zmat']
+        zs = _zscale(case)
+        # the two forms of the specification agree on pairs of rows with equal sums
+        # (general_design_reproduces_D)
+        pairs = [(i, j) for i in range(len(z)) for j in range(i + 1, len(z))]
+        for (i, j), x, y in zip(pairs, spec, spec_d):
+            if sum(z[i]) == sum(z[j]) and not abs(x - y) <= 1e-9 * zs:
+                return f'general design: G form {x} and D form {y} of the specification differ for rows {i},{j}'
+        if _claims_general(case):
+            if impl['contract'] is None or not impl['contract'] <= TOL_EXACT:
+                return (f"exact-signal contract S S^T = n_channel*G violated on the real call: "
+                        f"relative residual {impl['contract']}")
+            for k, a in enumerate(impl['datasets']):
+                d = first_diff(a['rdm_rows'], spec, 0, TOL_EXACT * zs,
+                               f'dataset[{k}].rdm_rows vs signal * (z_o - z_p)^T G (z_o - z_p)')
+                if d:
+                    return d
     return None
+
+
+def _zscale(case):
+    """scale of the quadratic forms of a general design: signal * max|G| * (max L1 norm of a row difference)^2"""
+    n = len(case['pts'])
+    dv = _expected_dvec(case)
+    gmax = max([abs(v) for v in dv] + [1e-12])         # |G_ab| <= max D
+    l1 = max(sum(abs(x) for x in r) for r in case['zmat'])
+    return max(case['signal'], 1e-12) * gmax * (2 * l1) ** 2
 
 
 # ------------------------------------------------------------------ features
@@ -747,10 +995,34 @@ def features(case, impl):
         b.append('model:weighted')   # any model built from two RDMs
     if _claims_rdm(case):
         b.append('rdm:compared')
+    if case['cond_mode'] == 'general':
+        zf = _zfeatures(case['zmat'])
+        b += ['zmat:' + f for f in sorted(zf)]
+        if _claims_general(case):
+            b.append('general:claimed')
+            b += ['general:claimed:' + f for f in sorted(zf)]
+    if case['cond_mode'] in ('matrix', 'general'):
+        b.append('zlayout:' + case.get('zlayout', 'C'))
+    b.append('args:' + ('defaults' if case.get('defaults') else case.get('argform', 'float')))
+    # option combinations of the same-signal / exact-signal switches with several simulations
+    if case['n_sim'] > 1:
+        b.append('combo:' + ('exact' if case['exact'] else 'random') + '+' + ('same' if case['same'] else 'fresh'))
+        if case['scc'] is not None:
+            b.append('signalcov:nsim>1')
+        if case['nct'] is not None:
+            b.append('noisecov:trial:nsim>1')
+    if case['nct'] is not None and _claims_any(case):
+        b.append('noisecov:trial:zero-noise')
     # whether the model's own factor instances met their contract is known once compare() ran
     if _OWN.get(_key(case)):
         b.append('own:met')
+        if case['n_ch'] == n:
+            b.append('own:met:eq')
+        if _degenerate(case):
+            b.append('own:met:degenerate')
     b.append('mk:' + _mk(case))
+    if case.get('stackform'):
+        b.append('stack:' + case['stackform'])
     if case.get('bad'):
         b = ['reject:' + case['bad']]
     elif impl is not None and 'exc' not in impl:
@@ -758,6 +1030,10 @@ def features(case, impl):
             b.append('signal:coded')
         if isinstance(impl.get('rdm_list'), list):
             b.append('rdm:list')
+        if impl.get('factor_resid') is not None and impl['factor_resid'] <= 1e-9:
+            b.append('factor:residual')
+            if case['exact'] and case['n_ch'] == n:
+                b.append('factor:residual:eq')
     return {'n_cond': n, 'n_ch_minus_n_cond': case['n_ch'] - n, 'cond_mode': case['cond_mode'],
             'exact': case['exact'], 'same': case['same'], 'noise_zero': case['noise'] == 0.0,
             'model_degenerate': _degenerate(case), 'claims_rdm': _claims_rdm(case), 'mk': _mk(case),
@@ -884,7 +1160,7 @@ def oracle(case):
             try:
                 viacalc = [float(x) for x in rsatoolbox.rdm.calc_rdm(
                     ds, method='euclidean', descriptor='cond_vec').get_vectors()[0]]
-            except (ValueError, TypeError, AssertionError, AttributeError) as exc:
+            except Exception as exc:  # noqa: BLE001  (any exception of calc_rdm is a finding, not an infrastructure error)
                 return _fail(f'dataset {k}: calc_rdm(euclidean, by cond_vec) raises on the simulated dataset',
                              f'{type(exc).__name__}: {str(exc)[:80]}', 'an RDM', failure='calc_rdm_raises',
                              theta_len=None if theta is None else int(np.size(theta)))
@@ -897,7 +1173,62 @@ def oracle(case):
                                  f'zero-noise data != signal * model RDM', got, want,
                                  failure='exact_rdm', model_degenerate=_degenerate(case),
                                  nch_eq_ncond=case['n_ch'] == n)
+    # general design matrix (regressor heights, rest rows, compound rows): with the exact signal and zero
+    # noise the data rows are sqrt(signal) * Z U, so  data data^T / n_channel = signal * Z G Z^T  and the
+    # squared distances between rows (mean over channels) are  signal * (z_o - z_p)^T G (z_o - z_p)
+    if _claims_general(case):
+        zf = sorted(_zfeatures(case['zmat']))
+        z = [[F(x) for x in r] for r in case['zmat']]
+        g = _gram_exact(_expected_dvec(case), n)
+        sig = F(case['signal'])
+        n_obs = len(z)
+        gz = [[sum(g[a][b] * z[p][b] for b in range(n)) for p in range(n_obs)] for a in range(n)]
+        zgz = [[sig * sum(z[o][a] * gz[a][p] for a in range(n)) for p in range(n_obs)] for o in range(n_obs)]
+        scale = max([abs(float(x)) for r in zgz for x in r] + [1e-12])
+        want_d = [float(zgz[o][o] + zgz[p][p] - 2 * zgz[o][p]) for o in range(n_obs) for p in range(o + 1, n_obs)]
+        for k, ds in enumerate(dss):
+            x = m[k]
+            if x.shape != (n_obs, case['n_ch']):
+                return _fail(f'dataset {k}: shape of the measurements', list(x.shape), [n_obs, case['n_ch']],
+                             failure='shape')
+            sm = [[sum(float(x[o][c]) * float(x[p][c]) for c in range(case['n_ch'])) / case['n_ch']
+                   for p in range(n_obs)] for o in range(n_obs)]
+            for o in range(n_obs):
+                for p_ in range(n_obs):
+                    if not abs(sm[o][p_] - float(zgz[o][p_])) <= TOL_EXACT * scale:
+                        return _fail(f'dataset {k}: second moment of exact-signal, zero-noise data of a general '
+                                     f'design matrix, entry ({o},{p_}): data data^T / n_channel != signal * Z G Z^T',
+                                     sm[o][p_], float(zgz[o][p_]), failure='general_second_moment',
+                                     zfeatures=zf)
+            direct = [sum((float(x[o][c]) - float(x[p_][c])) ** 2 for c in range(case['n_ch'])) / case['n_ch']
+                      for o in range(n_obs) for p_ in range(o + 1, n_obs)]
+            try:
+                viacalc = [float(v) for v in rsatoolbox.rdm.calc_rdm(
+                    _row_ds(ds), method='euclidean', descriptor='row').get_vectors()[0]]
+            except Exception as exc:  # noqa: BLE001  (any exception of calc_rdm is a finding, not an infrastructure error)
+                return _fail(f'dataset {k}: calc_rdm(euclidean, one pattern per observation) raises',
+                             f'{type(exc).__name__}: {str(exc)[:80]}', 'an RDM', failure='calc_rdm_raises',
+                             theta_len=None if theta is None else int(np.size(theta)))
+            for name, got in (('direct', direct), ('calc_rdm', viacalc)):
+                if len(got) != len(want_d) or any(not abs(a - b) <= 4 * TOL_EXACT * scale
+                                                  for a, b in zip(got, want_d)):
+                    return _fail(f'dataset {k}: squared-Euclidean RDM between the observations ({name}) of '
+                                 f'exact-signal, zero-noise data of a general design matrix != '
+                                 f'signal * (z_o - z_p)^T G (z_o - z_p)', got, want_d,
+                                 failure='general_rdm', zfeatures=zf)
     return None
+
+
+def _gram_exact(dvec, n):
+    """G = -1/2 H D H in exact rational arithmetic (plain loops) from the condensed model RDM"""
+    d = [[F(0)] * n for _ in range(n)]
+    it = iter(dvec)
+    for i in range(n):
+        for j in range(i + 1, n):
+            d[i][j] = d[j][i] = F(next(it))
+    h = [[(F(1) if i == j else F(0)) - F(1, n) for j in range(n)] for i in range(n)]
+    hd = [[sum(h[i][k] * d[k][j] for k in range(n)) for j in range(n)] for i in range(n)]
+    return [[F(-1, 2) * sum(hd[i][k] * h[k][j] for k in range(n)) for j in range(n)] for i in range(n)]
 
 
 # ------------------------------------------------------------------ shrinking
@@ -923,8 +1254,29 @@ def shrink(case, still_fails):
     if 'pts2' in cur:
         c = dict({k: v for k, v in cur.items() if k not in ('pts2', 'theta')}, mk='fixed_vec')
         attempt(c)
+    for upd in ({'zlayout': 'C'}, {'argform': 'float'}):
+        if upd.items() <= cur.items() or list(upd)[0] not in cur:
+            continue
+        attempt(dict(cur, **upd))
     if cur['cond_mode'] in ('labels', 'matrix'):
         attempt(dict({k: v for k, v in cur.items() if k != 'labels'}, cond_mode='design'))
+    if cur['cond_mode'] == 'general' and cur['nct'] is None:
+        # fewer rows, then simpler entries
+        changed = True
+        while changed and len(cur['zmat']) > 2:
+            changed = False
+            for i in range(len(cur['zmat'])):
+                if attempt(dict(cur, zmat=cur['zmat'][:i] + cur['zmat'][i + 1:])):
+                    changed = True
+                    break
+        for i in range(len(cur['zmat'])):
+            for j in range(len(cur['zmat'][i])):
+                for v in ((0.0,) if cur['zmat'][i][j] in (0.0, 1.0) else (0.0, 1.0)):
+                    if cur['zmat'][i][j] != v:
+                        zm = [list(r) for r in cur['zmat']]
+                        zm[i][j] = v
+                        if attempt(dict(cur, zmat=zm)):
+                            break
     # fewer conditions (design mode only, channels follow)
     changed = True
     while changed and cur['cond_mode'] == 'design' and cur['ncc'] is None and cur['nct'] is None \
